@@ -207,6 +207,12 @@ def ba_post(I, outcome, ctx):
         cover(I, 'raise')
         return
     cover(I, 'return')
+    if 'AUTH' not in I.st.ghost:
+        # from the property: the handler proceeds only for credentials that verify against THIS realm and THIS user table; no state
+        # left on the request by an earlier check (another realm, another table) may stand in for that
+        I.oblige('ensures.credentials_are_checked_against_this_realm_and_table_on_every_path', z3.BoolVal(False),
+                 detail='returned %s without calling check_auth(request, response, realm, users)' % ('None (authenticated)' if isinstance(v, VNone) else 'a response'))
+        return
     auth = I.st.ghost['AUTH']
     I.oblige('ensures.none_iff_authenticated', z3.BoolVal(isinstance(v, VNone) == auth))
     if not auth:
@@ -214,9 +220,11 @@ def ba_post(I, outcome, ctx):
         I.oblige('ensures.returns_unauthorized', z3.BoolVal(isinstance(v, VCons) and v.tag == 'unauthorized'))
 
 
+BA_REPLAY = 'import base64, sys\nfrom circuits.web import tools, wrappers\nfrom circuits.web.headers import Headers\nclass S:\n    def getpeername(self): return (\'127.0.0.1\', 1)\n    def getsockname(self): return (\'127.0.0.1\', 2)\ndef mk():\n    cred = base64.b64encode(b\'alice:wonderland\').decode()\n    req = wrappers.Request(S(), \'GET\', \'http\', \'/\', (1, 1), \'\', headers=Headers([(\'Host\', \'localhost:80\'), (\'Authorization\', \'Basic \' + cred)]))\n    return req, wrappers.Response(req, \'utf-8\')\nbad = []\nsite = {\'alice\': \'wonderland\'}\nadmin = {\'root\': \'toor\', \'alice\': \'another-password\'}\nenc = lambda s: s\nfor fn in (tools.basic_auth, tools.digest_auth):\n    req, res = mk()\n    kw = {\'encrypt\': enc} if fn is tools.basic_auth else {}\n    first = tools.basic_auth(req, res, \'Site\', site, enc)          # valid for the first realm / table\n    if first is not None:\n        bad.append(\'control failed: valid credentials refused (%r)\' % (first,)); continue\n    try:\n        second = fn(req, res, \'Admin\', admin, **kw)                  # same request, other realm and table: must be refused\n    except Exception as e:\n        second = e\n    if second is None:\n        bad.append(\'%s(realm "Admin") let the request through on the strength of an earlier check for realm "Site" (login=%r)\' % (fn.__name__, req.login))\nfor b in bad: print(b)\nsys.exit(1 if bad else 0)\n'
+
 for fn_ in ('basic_auth', 'digest_auth'):
     SPECS.append(FucSpec(
-        'C20', 'circuits/web/tools.py', fn_, ba_setup, ba_post,
+        'C20', 'circuits/web/tools.py', fn_, ba_setup, ba_post, replay=lambda model, ob: BA_REPLAY,
         calls={'check_auth': s_check_auth, '_httpauth.basicAuth': uf('basicAuth'), '_httpauth.digestAuth': uf('digestAuth'),
                'unauthorized': lambda I, r, a, k: VCons('unauthorized', a)},
         attr_hooks={'response.headers': lambda I: I.st.ghost['RHDRS']}, cover=['return'],
